@@ -397,12 +397,26 @@ func RunC10(c *core.Ctx) {
 		rate := []int{1, 60, 1000}[i%3]
 		stress = append(stress, Stress(rate, 3, 120, rng, fmt.Sprintf("stress-rate%d-%d", rate, i)))
 	}
+	// the same through a whole broker: concurrent publishers fan out to subscribers behind real listener.Conns
+	bruns := 6
+	if !c.Quick() {
+		bruns = 60
+	}
+	for i := 0; i < bruns; i++ {
+		rate := []int{1, 60, 1000}[i%3]
+		ts, err := BrokerStress(rate, 6, 3, 150, rng, fmt.Sprintf("broker-rate%d-%d", rate, i))
+		if err != nil {
+			core.Fatalf("broker stress: %v", err)
+		}
+		stress = append(stress, ts...)
+		c.Add("broker_stress_runs", 1)
+	}
 	c.Add("stress_runs", int64(len(stress)))
 	rej := c.ValidateTraces(stress, core.ValidateOpts{Module: "WriteQueue_Stress", Cfg: "INIT TraceInit\nNEXT TraceNext\nCONSTRAINT MarkC\nPOSTCONDITION AllConsumed\nCHECK_DEADLOCK FALSE\n", ChunkSize: 4})
 	c.ReportRejections(rej, "concurrent writers + flusher on listener.Conn: the socket stream has a torn, lost, duplicated or reordered packet")
 	c.Set("distinct_nontrivial", nt)
 	c.Set("rule", "TLC-simulated interleavings of 2 writers x 2-3 packets and the timer flush, over every limiter outcome, at the granularity of the verif.At gates in Conn.Write / Conn.Flush (after Limit(), after Len(), after enqueue, before the direct write, after the flush lock, after the socket write, after Reset); each schedule is forced onto a real listener.Conn whose socket is a recording fake; packet sizes 3..70000 bytes; non-trivial = a schedule containing both a flush and a direct write")
 	c.Assume = append(c.Assume, "one Write call on the underlying socket is atomic w.r.t. other Write calls (true for net.TCPConn; the fake socket implements exactly that)",
-		"WebSocket transport and the broker's fan-out are covered by the sequential adapters check (C17) and the session checks; this check is the concurrent write queue")
+		"the WebSocket transport is covered by the sequential adapters check (C17); here: the concurrent write queue in isolation (forced schedules, stress) and behind a whole broker with concurrent publishers (stress)")
 	c.Finish()
 }
